@@ -57,6 +57,11 @@ func VerifH15() {
 	u1, u2 := vSymText(1), vSymText(1)
 	ext1, ext2 := nondetBool(), nondetBool()
 	sim1, sim2 := nondetBool(), nondetBool()
+	if vParam("FULLTRAFFIC", 0) == 1 {
+		// both connections send everything (keeps the product with the earlier
+		// connection small in the quick tier)
+		vAssume(vAnd(vAnd(ext1, ext2), vAnd(sim1, sim2)))
+	}
 	// per-connection callback behaviour, drawn up front (callbacks draw nothing,
 	// so the native replay can run the two connections concurrently)
 	st := [2]*vIsoState{{cols: vChoose(2), rows: nondetBool()}, {cols: vChoose(2), rows: nondetBool()}}
@@ -109,6 +114,27 @@ func VerifH15() {
 	c1 := vNewConn(vConnTraffic(u1, name, ext1, sim1, withAuth))
 	c2 := vNewConn(vConnTraffic(u2, name, ext2, sim2, withAuth))
 	c2.id = 1
+	// an earlier connection that has come and gone before the two are served (a
+	// solver choice): none, a CancelRequest, an SSLRequest that is refused and
+	// followed by a hang-up, a startup packet cut short, a complete tiny session.
+	// Whatever it leaves behind in the server is part of what the two share.
+	var c0 *vConn
+	switch vChoose(vParam("PRELUDE", 5)) {
+	case 1:
+		c0 = vNewConn([]byte{0, 0, 0, 16, 0x04, 0xd2, 0x16, 0x2e, 0, 0, 0, 1, 0, 0, 0, 2})
+		vReach("after-a-cancel-request")
+	case 2:
+		c0 = vNewConn([]byte{0, 0, 0, 8, 0x04, 0xd2, 0x16, 0x2f})
+	case 3:
+		c0 = vNewConn(vStartup(vKV([]byte("user"), []byte("z")))[:7])
+	case 4:
+		c0 = vNewConn(vConnTraffic([]byte("z"), []byte("z"), false, false, withAuth))
+		vReach("after-an-earlier-session")
+	}
+	if c0 != nil {
+		c0.id = 2
+		srv.serve(context.Background(), c0) //nolint
+	}
 
 	if vRaceMode() {
 		// native replay of a footprint counterexample: the same two connections,
